@@ -401,10 +401,11 @@ def run_chain(cfg, seed, nops, cap, full):
     ops, obs = [], []
     cells0 = sorted(hs.hmesh.active[0])
     nsp = [int(n) for n in hs.mesh(0).numspans]
-    corner = tuple(rng.choice([0, n - 1]) for n in nsp)
-    hole = [corner]
-    # the chain converges to a seeded vertex of the coarse mesh (in level-0 cell coordinates)
-    centre = [float(rng.randint(0, n)) for n in nsp]
+    hole = [tuple(rng.choice([0, n - 1, n // 2]) for n in nsp)]
+    if rng.random() < 0.25:
+        hole.append(tuple(rng.choice([0, n - 1]) for n in nsp))
+    # the chain converges to a seeded vertex or cell centre of the coarse mesh (level-0 cell coordinates)
+    centre = [rng.randint(0, 2 * n) / 2.0 for n in nsp]
     for k in range(nops):
         if sum(len(a) for a in hs.hmesh.active) > cap:
             break
@@ -416,7 +417,7 @@ def run_chain(cfg, seed, nops, cap, full):
             act = sorted(hs.hmesh.active[l])
             best = min(act, key=lambda c: (sum(((ci + 0.5) / sc - x) ** 2 for ci, x in zip(c, centre)), c))   # closest to the vertex
             sel = [(l, best)]
-            if rng.random() < 0.3 and len(act) > 1:
+            if rng.random() < 0.15 and len(act) > 1:
                 sel.append((l, rng.choice(act)))
         op = {'kind': 'refine', 'marks': marks_of(sorted(set(sel))), 'container': rng.choice(CONTAINERS), 'trunc': False}
         status, ret = apply_op(hs, op)
